@@ -171,9 +171,30 @@ def exec_mix(case):
 def twin_cases(draw):
     c = sampler_cfg(draw)
     c.update({"common": draw(st.integers(0, 2**31 - 1)), "a": draw(st.integers(0, 2**31 - 1)), "b": draw(st.integers(0, 2**31 - 1)),
-              "t_div": draw(st.integers(0, 9)), "op": draw(st.sampled_from(["sample", "sample", "run", "posterior", "run_save"])),
-              "rs": draw(st.one_of(st.none(), st.integers(0, 10**6)))})
+              "t_div": draw(st.integers(0, 9)), "op": draw(st.sampled_from(["sample", "sample", "run", "posterior", "run_save", "run_save"])),
+              "rs": draw(st.one_of(st.none(), st.integers(0, 10**6), st.integers(0, 10**6)))})
     return c
+
+
+class seed_watch:
+    """records every numpy.random.seed(<not None>) made while it is active: the direct observation of 'the process-wide generator
+    was reset to a fixed value' (the indirect one - the next random number is the same for two different seeds - only sees a
+    reset that happens to be the last random event of the operation)"""
+
+    def __enter__(self):
+        self.calls, self.orig = [], np.random.seed
+
+        def seed(*a, **k):
+            if (a and a[0] is not None) or k.get("seed") is not None:
+                self.calls.append(a[0] if a else k.get("seed"))
+            return self.orig(*a, **k)
+
+        np.random.seed = seed
+        return self
+
+    def __exit__(self, *exc):
+        np.random.seed = self.orig
+        return False
 
 
 def exec_twin(case):
@@ -186,12 +207,13 @@ def exec_twin(case):
         s, t = build(case, random_state=case.get("rs"))  # a sampler constructed with its own random_state must not re-apply it later
         core = s._core
         core._initialize_fresh()
-        with quiet():
+        np.random.seed(sd if case["op"] in ("run", "run_save") else case["common"])
+        with quiet(), seed_watch() as watch:
             if case["op"] == "sample":
                 for _ in range(case["t_div"]):
                     lib_call(s.sample, what="Sampler.sample")
                 pre = history_snapshot(s.state)
-                np.random.seed(sd)
+                watch.orig(sd)
                 for _ in range(2):
                     lib_call(s.sample, what="Sampler.sample")
                 T = s.state.get_history_length()
@@ -199,7 +221,7 @@ def exec_twin(case):
                 betas = [float(b) for b in s.state.get_history("beta")][case["t_div"]:]
             elif case["op"] in ("run", "run_save"):
                 pre = None
-                np.random.seed(sd)
+                watch.orig(sd)
                 if case["op"] == "run_save":  # writing checkpoints on the way must not touch the stream either
                     from vlib.runs import scratch_dir
 
@@ -213,10 +235,14 @@ def exec_twin(case):
             else:
                 lib_call(s.run, n_total=72, progress=False, what="Sampler.run")
                 pre = history_snapshot(s.state)
-                np.random.seed(sd)
+                watch.orig(sd)
                 o = lib_call(s.posterior, resample=True, trim_importance_weights=False, what="posterior(resample=True)")
                 new = [np.asarray(o[0])]
                 betas = [1.0]
+        if watch.calls:
+            raise Violation(f"Sampler.{case['op']} called numpy.random.seed({watch.calls[0]!r}) {len(watch.calls)} time(s) after construction: the "
+                            f"process-wide generator was reset to a fixed value in the middle of the operation",
+                            sig={"kind": "global-stream-reset", "op": "sampler"})
         outs.append((pre, new, float(np.random.random()), betas))
         if case["clustering"]:
             n_fits += 1
